@@ -116,9 +116,9 @@ def work(args):
         if tier == 'quick' and g != gnames[0]: continue
         base = flatcheck.base_config(g)
         call = {'g': g + '+all', 'types': dict(base['types']), 'flags': dict(base['flags']), 'default': 2}
-        devs = OPTION_DEVS if tier == 'quick' else OPTION_DEVS + \
+        devs = OPTION_DEVS if (tier == 'quick' or g != gnames[0]) else OPTION_DEVS + \
             [a + ' ' + b for i, a in enumerate(OPTION_DEVS) for b in OPTION_DEVS[i + 1:]
-             if a.split('=')[0] != b.split('=')[0]]
+             if a.split('=')[0] != b.split('=')[0]]        # option pairs only under the first preset
         for cfg in ((base,) if tier == 'quick' else (base, call)):
             for od in devs:
                 r = srv.request('convert', nl=nl, opts=od, acc=flatcheck.acc_of(cfg, cfg.get('default', 0)))
@@ -141,12 +141,14 @@ def work(args):
 def main(tier, seed):
     chk = vcheck.Check(PID, tier, 'exploration', seed)
     build()
-    gnames = ['g0', 'g2', 'g5'] if tier == 'quick' else ['g0', 'g1', 'g2', 'g3', 'g4', 'g5', 'g6']
+    gnames = ['g0', 'g2', 'g5'] if tier == 'quick' else ['g0', 'g2', 'g3', 'g4', 'g5']
     only = os.environ.get('C01_FAMILIES')
     models = list(flatgen.all_models(tier, only.split(',') if only else None))
     step = int(os.environ.get('C01_STEP', '1'))
+    # small special families first: if the deadline stops the run, what is cut is the tail of the shape family
+    models.sort(key=lambda t: (t[0] == 'shapes', 0))
     jobs = [(fam, name, m, tier, gnames, i) for i, (fam, name, m) in enumerate(models) if i % step == 0]
-    deadline = time.time() + (420 if tier == 'quick' else 3000)
+    deadline = time.time() + (420 if tier == 'quick' else 3300)
     tot = collections.Counter(); classes = set(); fps = set()
     done = 0
     with Pool(vcheck.NCPU) as pool:
